@@ -50,6 +50,10 @@ def special_files():
     out.append(("pp.c", h("pp.c") + "\n#if defined(A) && (B > (1 + (2 * (3))))\n# define X 1\n#else\n# define X 2\n#endif\n\nint\tg_p = X;\n"))
     out.append(("ppbad.c", "#if (((((((((((1)))))))))))\n#endif\n#else\n"))
     out.append(("fatal.c", h("fatal.c") + "\n#foo\n"))
+    # a fatal error raised INSIDE the #if expression parser (where the process recursion limit is lowered),
+    # and a probe whose analysis needs a recursion depth above that lowered limit
+    out.append(("ppfatal.c", "#if (\n"))
+    out.append(("deep.c", "int\tf(int a)\n{\n\treturn (" + "(" * 120 + "a" + ")" * 120 + ");\n}\n"))
     out.append(("fatal2.c", "int\tmain(void)\n{\n\treturn (0);\n}\n) )"))
     out.append(("many.c", h("many.c") + "".join(f"\nint\tf{i}(void)\n{{\n\treturn ({i});\n}}\n" for i in range(7))))
     out.append(("vars.c", h("vars.c") + "\nint\tf(int aa, int bb)\n{\n\tint\tcc;\n\tint\tdd;\n\n\tcc = aa;\n\tdd = bb;\n\treturn (cc + dd);\n}\n"))
@@ -83,7 +87,8 @@ def run(res, tier, br, model_ok=True, search=False):
         sp0 = len(fam) - nsp
         for i in range(nsp):
             for j in range(nsp):
-                if i != j and (big or (i + j) % 3 == 0):
+                leaves_state = fam[sp0 + i][0] in ("ppfatal.c", "ppbad.c", "fatal.c", "fatal2.c", "pp.c")
+                if i != j and (big or leaves_state or (i + j) % 3 == 0):
                     hist.append([sp0 + i, sp0 + j])
         hres = pool.map(_w, [([fam[i] for i in seq], None) for seq in hist])
         # permuted listings: reversed and shuffled directory listing, all files in one go
